@@ -18,8 +18,13 @@ static int run_until_error(Exec<Var> &ex, const Program &P, string &kind, string
 // =================================================================== batch (C03)
 // (1) program(batch) == batch::concat_b program(sample b), values BIT-FOR-BIT (Naive devices);
 // (2) gradient of every Parameter (a batch-1 operand) == sum_b of the per-sample gradients, within
-//     rounding: |g - sum_b g_b| <= 64 * 2^-24 * (sum_b |g_b| + |g| + 0.1 * max_i sum_b |g_b[i]|) --
-//     the same per-sample terms are added in another association order (at most B + fan-in terms);
+//     rounding: |g - sum_b g_b| <= 64 * 2^-24 * (sum_b |g_b| + |g|) + 16 * 2^-24 * B * A, where A is the
+//     largest ADJOINT magnitude anywhere on the tape (measured on the implementation: every
+//     intermediate value gets a zero-valued Parameter "tap" added to it, whose gradient is that
+//     value's adjoint), at least 1 -- the same per-sample terms are added in another association
+//     order; the second summand covers terms that cancel exactly inside one sample (sparse
+//     softmax-cross-entropy on a size-1 axis: gy*softmax - gy = 0) but not after batch folding
+//     ((gy0+gy1+gy2) - gy0 - gy1 - gy2), and which are therefore invisible in |g_b|;
 // (3) a batch-1 leaf behaves as B replicated copies (values bit-for-bit);
 // (4) batch sizes other than equal-or-1 are rejected with Error by both APIs (Node: at creation),
 //     for every binary / list / id-list function, and the same call with batch 1 or B is accepted.
@@ -31,6 +36,34 @@ static Program sample_of(const Program &P, uint32_t b) {
     else if ((I.code == OP_PICK || I.code == OP_SSCE) && I.n.size() > 2) { long long d = I.n[0], id = I.n[1 + b]; I.n = {d, id}; }
   }
   return Q;
+}
+// every single-output value v gets `v + tap` (tap: zero Parameter of v's per-sample shape); the taps'
+// gradients are the adjoints of the tape.  Used only to measure the rounding scale.
+static double adjoint_scale(const Program &P, DevCtx &dc, const FV &w) {
+  vector<Shape> shp; vector<int> dev;
+  { ParamSet ps; Graph g; Graph::set_default(g); Exec<Node> ex(dc, ps); ex.run_all(P);
+    for (auto &n : ex.v) { shp.push_back(n.shape()); dev.push_back(&n.device() == dc.dev[1] ? 1 : 0); } }
+  Program Q; Q.B = P.B; Q.w = P.w; Q.g0 = 0; vector<int> remap; int nv = 0;
+  for (auto I : P.ins) {
+    for (int &a : I.a) a = remap[a];
+    int first = (int)remap.size(), no = I.nout();
+    Q.ins.push_back(I);
+    for (int j = 0; j < no; ++j) remap.push_back(nv + j);
+    nv += no;
+    if (no == 1 && I.code != OP_STOPGRAD) {
+      Instr T(OP_PAR); T.s = Shp(shp[first].dims(), 1); T.has_s = true; T.n = {1, dev[first], 0, 0}; T.f = {0.f, 0.f};
+      Q.ins.push_back(T); Q.ins.push_back(Gen::mk(OP_ADD, {nv - 1, nv})); remap[first] = nv + 1; nv += 2;
+    }
+  }
+  Q.out = remap[P.out];
+  double A = 1;
+  ParamSet ps; Graph g; Graph::set_default(g); Exec<Node> ex(dc, ps);
+  ex.run_all(Q); Node y = ex.v.at(Q.out);
+  if (y.shape().size() != w.size()) return A;
+  for (auto &e : ps.ps) e.second->reset_gradient();
+  F::multiply(y, F::input<Node>(y.shape(), w, &y.device())).backward();
+  for (auto &e : ps.ps) A = std::max(A, (double)maxabs(e.second->gradient().to_vector()));
+  return A;
 }
 struct NodeRun { bool err; string what; Shape ys; FV y; vector<FV> grads; };
 static NodeRun run_node_fb(const Program &P, DevCtx &dc, const FV *w) {
@@ -85,11 +118,12 @@ static Verdict check_batch(const Program &P, Stats &st) {
       }
     }
     if (gsum.size() != full.grads.size()) return Verdict::F("grad-count");
+    double gmax = 1;
+    try { gmax = adjoint_scale(P, dc, w) * B; } catch (Error &e) { return Verdict::F(string("tap-error ") + e.what()); }
     for (size_t k = 0; k < gsum.size(); ++k) {
-      double gref = 0; for (float a : gabs[k]) gref = std::max(gref, (double)a);
       for (size_t i = 0; i < gsum[k].size(); ++i) {
         double g = full.grads[k][i], s = gsum[k][i];
-        double tol = 64 * EPS32 * (gabs[k][i] + std::fabs(g) + 0.1 * gref) + 1e-30, err = std::fabs(g - s);
+        double tol = 64 * EPS32 * (gabs[k][i] + std::fabs(g)) + 16 * EPS32 * gmax, err = std::fabs(g - s);
         st.coords++; st.max_err = std::max(st.max_err, err / tol);
         if (err > tol) return Verdict::F("grad-fold param " + S(k) + " elem " + S(i) + ": batched=" + fmt(g) + " sum of per-sample=" + fmt(s) + " tol=" + fmt(tol));
       }
@@ -199,8 +233,15 @@ static Verdict check_api(const Program &P, Stats &st) {
     if (&exN.v[k].device() != &exT.v[k].device()) return Verdict::F("device value " + S(k));
     if (taint[k]) continue;
     if (a.size() != b.size()) return Verdict::F("value-size value " + S(k));
-    for (size_t i = 0; i < a.size(); ++i) if (bits(a[i]) != bits(b[i]) && !(std::isnan(a[i]) && std::isnan(b[i])))
-      return Verdict::F("value value " + S(k) + " elem " + S(i) + ": node=" + fmt(a[i]) + " tensor=" + fmt(b[i]));
+    // Naive: bit-for-bit.  Eigen results are not a function of the inputs at bit level (packet vs scalar
+    // code path depends on the malloc alignment of the result buffer), so with an Eigen device in the
+    // map the comparison is 1e-4 * max(1, max|v|).
+    const bool eig = g_devmap.find('E') != string::npos; const double mx = std::max(1.0, (double)std::max(maxabs(a), maxabs(b)));
+    for (size_t i = 0; i < a.size(); ++i) {
+      if (std::isnan(a[i]) && std::isnan(b[i])) continue;
+      bool bad = eig ? !(std::fabs((double)a[i] - (double)b[i]) <= 1e-4 * mx) : bits(a[i]) != bits(b[i]);
+      if (bad) return Verdict::F("value value " + S(k) + " elem " + S(i) + ": node=" + fmt(a[i]) + " tensor=" + fmt(b[i]));
+    }
     st.compared += (long)a.size();
   }
   if (fT < 0) vd.nontrivial = true;
